@@ -49,7 +49,7 @@ from gens import limitfacts
 from props import c10
 
 ID = 'C09'
-LEAN_MODULES = ['Yaql.Props.C09', 'Yaql.Props.C09Ctx', 'Yaql.Props.C09Eval', 'Yaql.Props.C09Gen', 'Yaql.Props.EvalStore',
+LEAN_MODULES = ['Yaql.Props.C09', 'Yaql.Props.C09Ctx', 'Yaql.Props.C09Eval', 'Yaql.Props.C09Gen', 'Yaql.Props.C09Reuse', 'Yaql.Props.EvalStore',
                 'Yaql.Props.C09Store', 'Yaql.Props.EvalStoreRefine', 'Yaql.Props.EvalStoreRefineM',
                 'Yaql.Props.EvalStoreRefineE']
 REQUIRED_THEOREMS = ['Yaql.Props.C09.' + n for n in (
@@ -59,7 +59,8 @@ REQUIRED_THEOREMS = ['Yaql.Props.C09.' + n for n in (
     'reeval', 'reeval_pool', 'context_clause_partial', 'interface_call_frame', 'interface_call_reads',
     'interface_history_independent', 'interface_probe_reads', 'eval_C09_full', 'eval_reeval_pool',
     'stmtOfEvalS_local', 'stmtOfEvalS_disciplined', 'evalS_C09_full', 'evalS_context_frame', 'evalS_only_dollar',
-    'evalS_only_dollar_reads', 'evalS_reeval_pool')] + [
+    'evalS_only_dollar_reads', 'evalS_reeval_pool', 'perCall_pool_independent', 'perCall_reeval', 'shared_harmless_newStyle',
+    'shared_breaks_reuse')] + [
         'Yaql.Props.C09Gen.no_param_mutation', 'Yaql.Props.C09Gen.table_nonvacuous'] + ['Yaql.Props.EvalStore.' + n for n in (
             'log_disciplined', 'writes_fresh', 'store_prefix_unchanged', 'store_extends', 'statement_only_dollar',
             'sim_callMethod', 'sim_callFn', 'sim_eval', 'refines_eval', 'refines_eval_value', 'refines_run')]
@@ -618,13 +619,15 @@ def spell(fd, args, kwargs, method):
 OVERLAP = {'list': 'list_str', 'dict': 'dict_flat', 'set': 'set_str'}
 
 
-def build_case(plan, target, vname, lam, method, variant, fill=None, source='data'):
+def build_case(plan, target, vname, lam, method, variant, fill=None, source='data', lams=None):
     """(text, data factory) for one sweep case, or None.  `fill`: {param: value name} for the other collection
-    positions; `source`: the values travel in the data (`$.aN`) or in variables of the host's context (`$vN`)"""
+    positions; `source`: the values travel in the data (`$.aN`) or in variables of the host's context (`$vN`);
+    `lams`: lambda texts for the lambda parameters in order (then `lam` is the default for the rest)"""
     fd = plan.fd
     data = {}
     args, kwargs = [], []
     fill = fill or {}
+    lams = list(lams or [])
 
     def slot(mk, kind='data'):
         if source == 'var':
@@ -645,7 +648,7 @@ def build_case(plan, target, vname, lam, method, variant, fill=None, source='dat
             return slot(VALUES[vname])
         kind, x = plan.filler[n]
         if kind == 'lambda':
-            return lam
+            return lams.pop(0) if lams else lam
         if kind == 'text':
             return x
         if kind == 'rule':
@@ -960,6 +963,459 @@ def run_pool(world, res, rng, tier, hist):
                          dict(part='pool', text=t, mode=mode, data=pyrepr(data), steps=steps[-20:]))
                 return
         res.traces += 1
+
+
+# ====================================================================================== registry pool (one prepared context, reused)
+#
+# "a parsed statement and a prepared context can be reused: evaluating the same statement again with equal data gives an
+# equal result" - for EVERY function of the library, in every style it can be called in.  State that makes a re-evaluation
+# differ need not sit in the context's variables or function sets (those are snapshotted elsewhere): it can hide inside a
+# registered function (a closure cell, an object built at registration time, a module global, a cache keyed by identity).
+# So: for every FunctionDefinition of the registry a pool of statements using it - its documented examples (`yaql>` lines of
+# the docstring) and generated calls over values / lambdas of different SHAPES (a lambda that treats its argument as a scalar,
+# a list, a [key, values] pair, two arguments ...: where a function accepts several call styles - groupBy's aggregator in the
+# current and in the 1.1.1 `[key, values]` style, an aggregator that raises on the first group - they all occur), successful
+# and failing ones.  The pools of a block of functions are evaluated in random order, every statement at least twice,
+# against ONE prepared context (the library context made once, a host chain on it; sometimes a child); each result is compared
+# with the result of the same statement on an equal, newly built document against a context made anew with
+# `yaql.create_context()` by an engine made anew.
+
+LAMBDA_SHAPES = ['$', 'true', '$1', '[$]', '$.len()', '$ + 1', '$[0]', '$[1]', '[$[0], $[1].len()]', '[$[0], $[1]]', '$1 + $2',
+                 '$.sum()', 'null', '$ > 1', '[$[0], $[1].sum()]', '$.toList()', '{k => $}', '$ = 1']
+EXAMPLE_RE = re.compile(r'^[ \t]*yaql>[ \t]*(\S.*?)[ \t]*$', re.M)
+
+
+def fresh_chain():
+    return host_chain(yaql.create_context(), [1, [2, 3]])
+
+
+def regpool_statements(world, rng, plans, tier):
+    """{function key: [(text, data factories)]}: documented examples + generated calls.  For a function with lambda
+    parameters: a call that succeeds is looked for (on a scratch context - only to steer the generator), then every
+    lambda parameter in turn is varied over all LAMBDA_SHAPES with the others kept (so the later lambdas are REACHED: an
+    aggregator in every style, one that raises on the first group ..), plus other values and some random combinations"""
+    out = {}
+    per_plain = 3 if tier == 'quick' else 6
+    tries = 40 if tier == 'quick' else 120
+    eng = regpool_engine(world, True, 'steer')
+    scratch = fresh_chain()
+    for key, fd in sorted(world.reg.items()):
+        plan = plans.get(key)
+        stmts = []
+        for m in EXAMPLE_RE.finditer(fd.doc or ''):
+            stmts.append((m.group(1), {}))
+
+        def add(c):
+            if c is not None and c[0] not in [t for t, _ in stmts]:
+                stmts.append(c)
+        if plan is not None:
+            nlam = sum(1 for k in plan.filler.values() if k and k[0] == 'lambda')
+            spellings = ([False] if fd.is_function else []) + ([True] if fd.is_method else [])
+            targets = list(plan.admits) or [None]
+
+            def make(target, vname, fill, method, lams):
+                try:
+                    return build_case(plan, target, vname, '$', method, 'plain', fill, 'data', lams)
+                except Exception:       # noqa - a definition the generic speller cannot call
+                    return None
+
+            def draw():
+                target = rng.choice(targets)
+                vname = rng.choice(plan.admits[target]) if target else None
+                if target and nlam and rng.random() < 0.85:
+                    # (on an empty collection no lambda is ever applied)
+                    full = [v for v in plan.admits[target] if len(VALUES[v]()) > 1]
+                    vname = rng.choice(full) if full else vname
+                others = [n for n in plan.admits if n != target and plan.filler.get(n, (None,))[0] == 'data']
+                fill = {n: rng.choice(plan.admits[n]) for n in others} if others and rng.random() < 0.5 else None
+                return target, vname, fill, (rng.choice(spellings) if spellings else False)
+            if not nlam:
+                for _ in range(per_plain):
+                    add(make(*draw(), []))
+            else:
+                base, found = None, []
+                for i in range(tries):
+                    shape = draw()
+                    lams = [rng.choice(LAMBDA_SHAPES) for _ in range(nlam)]
+                    c = make(*shape, lams)
+                    if c is None:
+                        continue
+                    if i < 3:
+                        add(c)
+                    if regpool_eval(world, eng, {}, c[0], materialise(c[1]), scratch.create_child_context())[0] == 'ok':
+                        # (a call on an empty collection succeeds without ever applying a lambda: of the successful
+                        # calls the one on the LARGEST values is varied)
+                        found.append((len(pyrepr(materialise(c[1]))), len(found), shape, lams, c))
+                        if len(found) >= 4:
+                            break
+                if found:
+                    _, _, shape, lams, c = max(found, key=lambda f: f[:2])
+                    base = (shape, lams)
+                    add(c)
+                if base is not None:
+                    shape, lams = base
+                    for p in range(nlam):
+                        for sh in LAMBDA_SHAPES:
+                            add(make(*shape, lams[:p] + [sh] + lams[p + 1:]))
+                    for _ in range(3):                      # the same lambdas on other values
+                        add(make(*draw(), lams))
+        if stmts:
+            out[key] = stmts
+    return out
+
+
+def regpool_eval(world, eng, cache, text, data, ctx):
+    st = cache.get(text)
+    if st is None:
+        try:
+            st = cache[text] = eng(text)
+        except Exception as e:      # noqa
+            return ('err', 'parse:' + type(e).__name__)
+    return world.run(st, data, ctx)
+
+
+def regpool_canon(v, depth=0):
+    """a finalised result as a value: containers by content (dicts and sets unordered), everything else by type and by
+    its repr without addresses (a context object handed back by let / def is `a Context`)"""
+    t = type(v)
+    if v is None or t is bool or t is int or t is str:
+        return (t.__name__, v)
+    if t is float:
+        return ('float', fkey(v))
+    if depth > 40:
+        return ('deep',)
+    if t is list or t is tuple:
+        return (t.__name__, tuple(regpool_canon(x, depth + 1) for x in v))
+    if t is dict or t is utils.FrozenDict:
+        return ('dict', tuple(sorted(((regpool_canon(k, depth + 1), regpool_canon(x, depth + 1)) for k, x in v.items()), key=repr)))
+    if t is set or t is frozenset:
+        return ('set', tuple(sorted((regpool_canon(x, depth + 1) for x in v), key=repr)))
+    return ('obj', t.__module__ + '.' + t.__name__, re.sub(r'0x[0-9a-fA-F]+', '0x', repr(v))[:120])
+
+
+def regpool_same(a, b):
+    if a[0] != b[0]:
+        return False
+    if a[0] == 'err':
+        return a[1] == b[1]
+    try:
+        return regpool_canon(a[1]) == regpool_canon(b[1])
+    except Exception:       # noqa - not comparable: no verdict
+        return True
+
+
+_REF_ENGINES = {}
+
+
+def regpool_engine(world, mode, which):
+    """engines of their own factories: `which` = 'ref' (fresh-context evaluations) / 'replay' / 'shared'"""
+    k = (mode, which)
+    if k not in _REF_ENGINES:
+        _REF_ENGINES[k] = yaql.YaqlFactory().create(options=dict(world.engine(conv_in=mode).options))
+    return _REF_ENGINES[k]
+
+
+def regpool_fresh(world, mode, text, data_mk):
+    """the statement freshly parsed, on a newly built document, on a context made anew with `yaql.create_context()`"""
+    return regpool_eval(world, regpool_engine(world, mode, 'ref'), {}, text, materialise(data_mk), fresh_chain())
+
+
+def regpool_replay(world, mode, steps, upto=None):
+    """the outcomes of a history on ONE newly prepared context: steps = [(text, data factories, on_child)]"""
+    eng = regpool_engine(world, mode, 'replay')
+    shared = fresh_chain()
+    cache, outs = {}, []
+    for text, data_mk, on_child in steps[:upto]:
+        ctx = shared.create_child_context() if on_child else shared
+        outs.append(regpool_eval(world, eng, cache, text, materialise(data_mk), ctx))
+    return outs
+
+
+def regpool_confirm(world, mode, steps, i):
+    """step i of the history gave another result than a fresh context: is that a fact about the history (reproducible on a
+    newly prepared context, the statement itself deterministic)?  -> (shrunk steps, got, expected) or None"""
+    text, data_mk, _ = steps[i]
+    f1, f2 = regpool_fresh(world, mode, text, data_mk), regpool_fresh(world, mode, text, data_mk)
+    if not regpool_same(f1, f2) or 'Timeout' in (f1[1], f2[1]):
+        return None                 # not a function of its input (random, now ..): no verdict
+    hist_steps = list(steps[:i + 1])
+
+    def differs(hs):
+        outs = regpool_replay(world, mode, hs)
+        return (not regpool_same(outs[-1], f1)) and 'Timeout' not in (outs[-1][1],)
+    if not (differs(hist_steps) and differs(hist_steps)):
+        return None
+    # greedy: drop earlier evaluations while the last one still differs
+    j = 0
+    budget = 200
+    while j < len(hist_steps) - 1 and budget > 0:
+        cand = hist_steps[:j] + hist_steps[j + 1:]
+        budget -= 1
+        if differs(cand) and differs(cand):
+            hist_steps = cand
+        else:
+            j += 1
+    got = regpool_replay(world, mode, hist_steps)[-1]
+    return hist_steps, got, f1
+
+
+def regpool_report(res, world, mode, hs, got, exp):
+    def line(st):
+        return '%s on %s%s' % (st[0], pyrepr(materialise(st[1])), ' [on a child of the context]' if st[2] else '')
+    res.fail('oracle', 'reuse-differs',
+             'registry pool: against ONE prepared context (yaql.create_context() once, yaql.convertInputData=%s) the evaluations %s '
+             'make the last one give %s; the same statement on an equal document against a context made anew gives %s' % (
+                 mode, ' ; then '.join(line(st) for st in hs), short(got), short(exp)),
+             dict(part='regpool', mode=mode, steps=[[t, {k: pyrepr(mk()) for k, mk in d.items()}, c] for t, d, c in hs]))
+
+
+def function_names(st):
+    """names of all functions / operators a parsed statement calls"""
+    out = set()
+
+    def walk(e):
+        if isinstance(e, expressions.Statement):
+            return walk(e.expression)
+        if isinstance(e, expressions.Function):
+            out.add(e.name)
+            for a in e.args:
+                walk(a)
+        elif isinstance(e, expressions.Wrap):
+            walk(e.expr)
+        elif isinstance(e, expressions.MappingRuleExpression):
+            walk(e.source)
+            walk(e.destination)
+    walk(st)
+    return out
+
+
+def regpool_impure(world, res, pools, hist):
+    """names of functions that are not functions of their arguments BY NATURE (now, random ..): repeated evaluations of a
+    statement differ even on contexts made anew each time.  Statements calling them are outside the property's quantifier
+    ("with equal data gives an equal result").  A statement whose repeated evaluations differ on ONE context although
+    contexts made anew agree is a violation, reported here."""
+    eng = regpool_engine(world, True, 'probe')
+    scratch = fresh_chain()
+    impure = set()
+    varying = []
+    for key in sorted(pools):
+        for text, data_mk in pools[key]:
+            try:
+                st = eng(text)
+            except Exception:       # noqa
+                continue
+            outs = [world.run(st, materialise(data_mk), scratch.create_child_context()) for _ in range(3)]
+            if all(regpool_same(outs[0], o) for o in outs[1:]) or any('Timeout' == o[1] for o in outs):
+                continue
+            varying.append((function_names(st), text, data_mk))
+    # the smallest explanation: a varying statement that calls nothing but one function names it; a varying statement
+    # that calls a function already named is explained by it.  "By nature" = contexts made anew disagree as well (20 of
+    # them, so that a two-valued random() is not taken for a function); a statement that varies on ONE context while 20
+    # contexts made anew agree has its evaluations depend on the history of the context: a violation.
+    for names, text, data_mk in sorted(varying, key=lambda v: len(v[0])):
+        if names & impure:
+            continue
+        fresh = [regpool_fresh(world, True, text, data_mk) for _ in range(20)]
+        if not all(regpool_same(fresh[0], o) for o in fresh[1:]):
+            impure |= names
+            continue
+        steps = [(text, data_mk, True)] * 3
+        c = regpool_confirm(world, True, steps, 2) or regpool_confirm(world, True, steps, 1)
+        if c is not None:
+            regpool_report(res, world, True, *c)
+            return impure
+        impure |= names                 # not reproducible: no verdict about these functions
+    hist['regpool-functions-not-determined-by-their-arguments'] = sorted(impure)
+    return impure
+
+
+
+def run_regpool(world, res, rng, tier, hist, plans=None):
+    if plans is None:
+        plans = {}
+        for key, fd in sorted(world.reg.items()):
+            try:
+                plans[key] = Plan(world, key, fd)
+            except Exception:       # noqa
+                pass
+    pools = regpool_statements(world, rng, plans, tier)
+    impure = regpool_impure(world, res, pools, hist)
+    if res.failures:
+        return
+    if impure:
+        eng0 = regpool_engine(world, True, 'probe')
+
+        def pure(text):
+            try:
+                return not (function_names(eng0(text)) & impure)
+            except Exception:       # noqa
+                return True
+        pools = {k: [(t, d) for t, d in v if pure(t)] for k, v in pools.items()}
+        pools = {k: v for k, v in pools.items() if v}
+    keys = sorted(pools)
+    rng.shuffle(keys)
+    block = 12
+    hist['regpool-functions'] = len(keys)
+    hist['regpool-statements'] = sum(len(v) for v in pools.values())
+    hist['regpool-documented-examples'] = sum(1 for v in pools.values() for t, d in v if not d)
+    hist['regpool-largest-pools'] = sorted(((len(v), k) for k, v in pools.items()), reverse=True)[:5]
+    t0 = time.time()
+    budget = 45 if tier == 'quick' else 400
+    for b in range(0, len(keys), block):
+        if time.time() - t0 > budget:
+            hist['regpool-budget-cut-at-function'] = b
+            break
+        mode = (b // block) % 4 != 3          # mostly with input conversion (the default), a quarter raw
+        eng = regpool_engine(world, mode, 'shared')
+        shared = fresh_chain()              # THE prepared context of this block
+        cache = {}
+        stmts = [(k, t, d) for k in keys[b:b + block] for t, d in pools[k]]
+        # references: the j-th statement of every function of the block on the j-th context made anew (a context per
+        # statement when a difference is to be confirmed, see regpool_confirm)
+        refs = {}
+        ref_eng = regpool_engine(world, mode, 'ref')
+        for j in range(max(len(pools[k]) for k in keys[b:b + block])):
+            rctx = fresh_chain()
+            for k in keys[b:b + block]:
+                if j < len(pools[k]):
+                    t, d = pools[k][j]
+                    refs[(k, t)] = regpool_eval(world, ref_eng, {}, t, materialise(d), rctx.create_child_context())
+        order = stmts * 2
+        rng.shuffle(order)
+        steps = []
+        for k, text, data_mk in order:
+            on_child = rng.random() < 0.3
+            ctx = shared.create_child_context() if on_child else shared
+            out = regpool_eval(world, eng, cache, text, materialise(data_mk), ctx)
+            steps.append((text, data_mk, on_child))
+            ref = refs[(k, text)]
+            res.case(('regpool', k, text, mode), nontrivial=out[0] == 'ok')
+            hist['regpool-' + out[0]] = hist.get('regpool-' + out[0], 0) + 1
+            if not regpool_same(out, ref) and 'Timeout' not in (out[1], ref[1]):
+                c = regpool_confirm(world, mode, steps, len(steps) - 1)
+                if c is None:
+                    hist['regpool-differences-not-confirmed'] = sorted(set(hist.get('regpool-differences-not-confirmed', []) + [text]))[:30]
+                    continue
+                regpool_report(res, world, mode, *c)
+                return
+        res.traces += 1
+    hist['regpool-functions-with-two-or-more-statements'] = sum(1 for v in pools.values() if len(v) >= 2)
+
+
+# ====================================================================================== groupBy's aggregator object
+GAGG_BEHAVIOURS = ['const', 'len', 'pairlen', 'first2', 'res', 'res2', 'oth', 'str2', 'echo', 'old', 'new']
+
+
+def gagg_function(beh):
+    """a user aggregator: what it does with a list of values / with a `(key, values)` pair"""
+    def act(b, arg):
+        if b == 'const':
+            return 7
+        if b == 'len':
+            return len(arg)
+        if b == 'pairlen':
+            return [arg[0], len(arg[1])]            # `[$[0], $[1].len()]`: IndexError / TypeError on what it does not fit
+        if b == 'first2':
+            return [arg[0], 'x']
+        if b == 'res':
+            e = IndexError('list index out of range')
+            e.tag = 1
+            raise e
+        if b == 'res2':
+            e = yexc.NoMatchingMethodException('sum', arg)
+            e.tag = 2
+            raise e
+        if b == 'oth':
+            e = ValueError('no')
+            e.tag = 3
+            raise e
+        if b == 'str2':
+            return 'ab'
+        if b == 'old':
+            if not isinstance(arg, tuple):
+                e = yexc.NoMatchingFunctionException('#indexer')
+                e.tag = 4
+                raise e
+            return [arg[0], len(arg[1])]
+        if b == 'new':
+            if isinstance(arg, tuple):
+                e = yexc.NoMatchingMethodException('len', arg)
+                e.tag = 5
+                raise e
+            return len(arg)
+        return arg
+
+    def f(arg):
+        return act(beh[1] if isinstance(arg, tuple) else beh[0], arg)
+    return f
+
+
+def gagg_outcome(fn):
+    try:
+        return {'ok': c10_values_enc(fn())}
+    except (yexc.NoMatchingMethodException, yexc.NoMatchingFunctionException, IndexError) as e:
+        return {'res': getattr(e, 'tag', 900)}
+    except Exception as e:      # noqa
+        return {'oth': getattr(e, 'tag', 901)}
+
+
+def c10_values_enc(v):
+    import values
+    return values.enc(v)
+
+
+def run_gagg(world, drv, res, rng, tier, hist):
+    """`queries.GroupAggregator.__call__` against `Model/GroupAgg.lean` (`call`, `run`, `poolPerCall`, `poolShared`): pools of
+    groupBy evaluations with aggregators of every style, run per call (the code's lifetime of the aggregator object) and
+    with ONE object's state carried from evaluation to evaluation (the contrasting design of `Props.C09.shared_breaks_reuse`)"""
+    if drv is None:
+        return
+    n = 150 if tier == 'quick' else 1500
+    for i in range(n):
+        allow = rng.random() < 0.8
+        stmts = []
+        for _ in range(rng.choice([1, 2, 2, 3, 4])):
+            beh = (rng.choice(GAGG_BEHAVIOURS), rng.choice(GAGG_BEHAVIOURS))
+            keys = rng.sample(['a', 'b', 'c', 1, 2, None], rng.choice([1, 2, 2, 3]))
+            groups = [(k, [rng.choice([1, 2, 'a', k]) for _ in range(rng.choice([1, 2, 2, 3]))]) for k in keys]
+            stmts.append((beh, groups))
+        for shared in (False, True):
+            real = []
+            carry = None
+            for beh, groups in stmts:
+                try:
+                    ga = yqueries.GroupAggregator(gagg_function(beh), allow)
+                    if shared and carry is not None:
+                        ga.allow_fallback, ga._failure_info = carry
+                    carry = (ga.allow_fallback, ga._failure_info)
+                except (TypeError, AttributeError) as e:
+                    # the class is not the one the model mirrors any more: the tie is broken (no failing input here - the
+                    # property itself is judged by the registry pool above)
+                    res.fail('mismatch', 'gagg-model', 'queries.GroupAggregator(aggregator, allow_fallback) with the state '
+                             '(allow_fallback, _failure_info) is not what Model/GroupAgg.lean mirrors any more: %r' % (e,),
+                             dict(part='gagg'))
+                    return
+                out = gagg_outcome(lambda: [ga(item) for item in dict((k, list(v)) for k, v in groups).items()])
+                carry = (ga.allow_fallback, ga._failure_info)
+                real.append({'ok': out['ok']['li']} if 'ok' in out else {'err': out})
+            req = dict(op='gagg', allow=allow, shared=shared, stmts=[
+                dict(agg=[[c10_values_enc(arg), gagg_outcome(lambda arg=arg: gagg_function(beh)(arg))]
+                          for k, vs in groups for arg in (list(vs), (k, list(vs)))],
+                     groups=[[c10_values_enc(k), [c10_values_enc(v) for v in vs]] for k, vs in groups])
+                for beh, groups in stmts])
+            model = drv.ask({'p': 'C09', 'cases': [req]})['res'][0]['outs']
+            res.case(('gagg', i, shared), nontrivial=len(stmts) > 1)
+            res.traces += 1
+            hist['gagg-' + ('shared' if shared else 'per-call')] = hist.get('gagg-' + ('shared' if shared else 'per-call'), 0) + 1
+            for r in real:
+                k = 'gagg-outcome-' + ('ok' if 'ok' in r else 'res' if 'res' in r['err'] else 'oth')
+                hist[k] = hist.get(k, 0) + 1
+            if model != real:
+                res.fail('mismatch', 'gagg-model', 'GroupAggregator (%s, allow_fallback=%s) over %s: real %s, model %s' % (
+                    'one object shared by the evaluations' if shared else 'one object per call', allow,
+                    [(b, g) for b, g in stmts], json.dumps(real)[:400], json.dumps(model)[:400]),
+                    dict(part='gagg'))
+                return
 
 
 def run_yaqleval(world, res, rng, tier, hist):
@@ -1966,14 +2422,27 @@ def replay_case(world, drv, res, case, hist):
                 what, case['text'], case['mode'], case['data']), case)
         res.case(('replay', case['text']))
         return True
+    if part == 'regpool' and 'steps' in case:
+        mode = case['mode']
+        steps = [(t, {k: (lambda v=v: eval(v, dict(PYNS))) for k, v in d.items()}, c) for t, d, c in case['steps']]      # noqa: S307
+        outs = regpool_replay(world, mode, steps)
+        exp = regpool_fresh(world, mode, steps[-1][0], steps[-1][1])
+        res.case(('replay', steps[-1][0]))
+        if not regpool_same(outs[-1], exp):
+            regpool_report(res, world, mode, steps, outs[-1], exp)
+        return True
     if part == 'evalstore':
         from props import evalstore
         evalstore.run(dict(driver=drv, tier=case.get('tier', 'quick'), seed=case.get('seed', 0), replay_case=case), res, hist, ID)
         return True
-    if part in ('pool', 'ctx', 'conv', 'yaqlized', 'yaqleval', 'provenance', 'entry') and 'seed' in case:
+    if part in ('pool', 'ctx', 'conv', 'yaqlized', 'yaqleval', 'provenance', 'entry', 'regpool', 'gagg') and case.get('seed') is not None:
         rng = common.make_rng(case['seed'], ID + part)
         tier = case.get('tier', 'quick')
-        if part == 'pool':
+        if part == 'regpool':
+            run_regpool(world, res, rng, tier, hist)
+        elif part == 'gagg':
+            run_gagg(world, drv, res, rng, tier, hist)
+        elif part == 'pool':
             run_pool(world, res, rng, tier, hist)
         elif part == 'ctx':
             run_ctx(world, drv, res, rng, tier, hist)
@@ -2071,7 +2540,9 @@ def run(env, res):
     hist['collection-functions-never-entered'] = sorted(coll - hit)[:40]
     hist['collection-functions-never-reached-by-a-raw-container'] = sorted(coll - raw)[:60]
     hist['seconds-sweep'] = round(time.time() - t0, 1)
-    for part, fn in (('pool', lambda r: run_pool(world, res, r, tier, hist)),
+    for part, fn in (('regpool', lambda r: run_regpool(world, res, r, tier, hist, plans)),
+                     ('gagg', lambda r: run_gagg(world, drv, res, r, tier, hist)),
+                     ('pool', lambda r: run_pool(world, res, r, tier, hist)),
                      ('ctx', lambda r: run_ctx(world, drv, res, r, tier, hist)),
                      ('conv', lambda r: run_conv(world, drv, res, r, tier, hist)),
                      ('yaqleval', lambda r: run_yaqleval(world, res, r, tier, hist)),
